@@ -11,13 +11,15 @@ Section C10.
   Context (assignV : V -> Z -> V) (zeroV : Z -> V).
 
   (* lookups see the latest write; a missing key gives the zero value of the element type and ok = false;
-     other keys are untouched; len counts live keys; values are converted to the element type *)
+     other keys are untouched; len counts live keys; values are converted to the element type.
+     Conjuncts 1-5 hold for EVERY map record (no invariant needed: get / set / delete work on the data list
+     only); conjunct 6 (len after delete) needs Inv, namely that the data list has no duplicate key. *)
   Theorem c10_refine :
     (forall m k v, get keqb zeroV (set keqb assignV m k v) k = (assignV v (vtype m), true)) /\
     (forall m k k' v, k' <> k -> get keqb zeroV (set keqb assignV m k v) k' = get keqb zeroV m k') /\
-    (forall (m : @omap K V) k order, NoDup (map fst (data m)) -> get keqb zeroV (delete keqb m k order) k = (zeroV (vtype m), false)) /\
+    (forall (m : @omap K V) k order, get keqb zeroV (delete keqb m k order) k = (zeroV (vtype m), false)) /\
     (forall (m : @omap K V) k k' order, k' <> k -> get keqb zeroV (delete keqb m k order) k' = get keqb zeroV m k') /\
-    (forall m k v, Inv keqb m -> len (set keqb assignV m k v) = if mem keqb k (data m) then len m else S (len m)) /\
+    (forall m k v, len (set keqb assignV m k v) = if mem keqb k (data m) then len m else S (len m)) /\
     (forall (m : @omap K V) k order, Inv keqb m -> len (delete keqb m k order) = if mem keqb k (data m) then len m - 1 else len m).
   Proof.
     exact (conj (get_set_same keqb keqb_spec assignV zeroV) (conj (get_set_other keqb keqb_spec assignV zeroV)
@@ -32,12 +34,18 @@ Section C10.
     (forall os m, Inv keqb m -> ops_ok keqb assignV m os -> Inv keqb (apply_all keqb assignV m os)).
   Proof. exact (conj (inv_new keqb keqb_spec assignV) (inv_apply_all keqb keqb_spec assignV)). Qed.
 
-  (* Go's range contract, for any loop body performing any map operations between visits: each key at
-     most once; a key live for the whole loop is visited; only live keys are visited (the i-th visited
-     key is live in the state in which it is visited); nothing outside the start snapshot is visited *)
+  (* Go's range contract, for ANY loop body performing any map operations between visits (no premise on the
+     body), over the snapshot keys m taken when the loop starts, with fuel S (length (keys m)) (always
+     enough: each visit shortens the snapshot):
+       1. each key is visited at most once;
+       2. a key live in EVERY state of the loop is visited;
+       3. a visited key is live in SOME state of the loop -- this conjunct alone is weak (it does not say
+          WHICH state); the sharp form "the i-th visited key is live in the i-th state, i.e. at the moment
+          it is visited" is c10_range_live below;
+       4. nothing outside the start snapshot is visited (keys inserted during the loop are never visited:
+          Go allows either). *)
   Theorem c10_range : forall m body, Inv keqb m ->
     let fuel := S (length (keys m)) in
-    body_ok keqb assignV fuel m (keys m) body ->
     let vs := fst (range_loop keqb assignV fuel m (keys m) body) in
     NoDup vs /\
     (forall k, (forall s, In s (states keqb assignV fuel m (keys m) body) -> live keqb s k) -> In k vs) /\
@@ -45,6 +53,8 @@ Section C10.
     (forall k, In k vs -> In k (keys m)).
   Proof. exact (range_contract keqb assignV). Qed.
 
+  (* never a deleted key: the i-th visited key is live in the i-th state of the loop (the state in which it
+     is visited), for any fuel, snapshot r and body *)
   Theorem c10_range_live : forall fuel m r body vs mf,
     range_loop keqb assignV fuel m r body = (vs, mf) ->
     Forall2 (fun k s => live keqb s k) vs (firstn (length vs) (states keqb assignV fuel m r body)).
